@@ -304,14 +304,21 @@ def o_zip(gs):
 
 
 def o_chunks(g, n):
+    # library code (include.rs:165): per element the aggregate callback and its inner lambda, the filter
+    # callback; per emitted chunk the map callback
     def it(ctx):
         cur = []
         for x in g(ctx):
+            ctx.calls += 3
+            if len(cur) == n:
+                cur = []
             cur.append(x)
             if len(cur) == n:
-                yield cur
-                cur = []
-        if cur:
+                ctx.calls += 1
+                yield list(cur)
+        ctx.calls += 2
+        if cur and len(cur) < n:
+            ctx.calls += 1
             yield cur
     return counted(it)
 
@@ -454,7 +461,7 @@ def gen_source(rng, errmode):
 
 
 INT_OPS = ["map", "filter", "take", "skip", "add", "repeat", "repeatn", "take_while", "skip_until", "aggregate",
-           "with_count", "distinct", "group", "windows", "zip", "enumerate"]
+           "with_count", "distinct", "group", "windows", "chunks", "zip", "enumerate"]
 ERR_OK = {"map", "filter", "take", "skip", "add", "repeat", "take_while", "skip_until", "aggregate", "zip", "enumerate"}
 
 
@@ -511,6 +518,9 @@ def extend(rng, p, errmode, depth):
     if op == "windows":
         n = rng.choice([1, 2, 3, 4])
         return p.then("windows", f"{p.src}.windows({n})", f"windows:{n}", o_windows(p.orc, n), ty=SEQ)
+    if op == "chunks":
+        n = rng.choice([1, 2, 3, 4])
+        return p.then("chunks", f"{p.src}.chunks({n})", f"chunks:{n}", o_chunks(p.orc, n), ty=SEQ)
     if op == "zip":
         q = gen_pipe(rng, errmode, max(0, depth - 2), want_int=True)
         return Pipe(f"{p.src}.zip({q.src})", p.toks + q.toks + ["zip:2"], o_zip([p.orc, q.orc]), TUP2, p.inf and q.inf,
